@@ -141,7 +141,9 @@ def observe(op, t, W, level):
                 if type(op).__name__ in ("Exp", "Evolution"):
                     theta = float(np.imag(complex(op.coeff)))
                 elif len(op.data) == 1 and np.ndim(op.data[0]) == 0:
-                    theta = float(np.real(qp.math.unwrap([op.data[0]])[0]))
+                    pz = complex(qp.math.unwrap([op.data[0]])[0])
+                    # wrappers of Exp carry the coefficient i*theta as their single parameter
+                    theta = float(pz.imag) if abs(pz.real) < 1e-14 and abs(pz.imag) > 0 else float(pz.real)
                 else:
                     skipped.append("generator:not-single-parameter")
                     continue
@@ -185,8 +187,7 @@ def observe(op, t, W, level):
 
 
 def _key(op):
-    nm = op.name if isinstance(op.name, str) else type(op).__name__
-    return f"{type(op).__name__}[{nm}]"
+    return type(op).__name__
 
 
 def _close(a, b):
@@ -212,8 +213,8 @@ def run(tier, seed):
     d1 = [x for x in wr if x[1] != "rand"]
     rnd = [x for x in wr if x[1] == "rand"]
     rng.shuffle(d1)
-    insts += [(strip_work(t), "wrapper") for t, _ in d1[:(330 if quick else 4000)]]
-    insts += [(strip_work(t), "nested") for t, _ in rnd[:(170 if quick else 3000)]]
+    insts += [(strip_work(t), "wrapper") for t, _ in d1[:(230 if quick else 4000)]]
+    insts += [(strip_work(t), "nested") for t, _ in rnd[:(120 if quick else 3000)]]
     maxn = 4 if quick else 5
     viol = []
     cases = {4: [], 5: []}
@@ -334,13 +335,16 @@ def run(tier, seed):
                 if clause == "b-not-evaluated":
                     stats["skipped"][f"{r['kind']}:spec-guard:{eb}"] = stats["skipped"].get(f"{r['kind']}:spec-guard:{eb}", 0) + 1
                     continue
+                if clause == "not-normal":
+                    stats["skipped"]["diagonalizing_gates:not-normal"] = stats["skipped"].get("diagonalizing_gates:not-normal", 0) + 1
+                    continue
                 if r["rel"] in ("exact", "diag", "pauli"):
                     n_exact += 1
                     rels[r["rel"]] = rels.get(r["rel"], 0) + 1
                 if clause != "ok":
                     good = False
                     extra = f":{r['exc']}" if clause in ("available-not-produced", "unavailable-wrong-error") else ""
-                    viol.append(Violation(key=f"{key}:{r['kind']}:{clause}{extra}",
+                    viol.append(Violation(key=f"{r['kind']}:{clause}{extra}:{key}",
                                           detail=f"{op!r}: {r['kind']} reported {'available' if r['avail'] else 'unavailable'}, "
                                                  f"{'produced' if r['produced'] else 'raised ' + r['exc']}; TLC verdict {clause}",
                                           replay={"op": repr(op), "term": t, "rep": {k: r[k] for k in ("kind", "avail", "produced", "exc", "rel")},
@@ -355,6 +359,9 @@ def run(tier, seed):
                     try:
                         if tag == "prog":
                             got = ot.num_eval(data[1], n, level)
+                        elif tag in ("diagf", "diagx") and not np.allclose(U @ U.conj().T, U.conj().T @ U, atol=1e-9):
+                            stats["skipped"]["diagonalizing_gates:not-normal"] = stats["skipped"].get("diagonalizing_gates:not-normal", 0) + 1
+                            continue
                         elif tag == "diagf":
                             D = ot.num_eval(data[1], n, level)
                             got = D.conj().T @ np.diag(data[2]) @ D
@@ -378,7 +385,7 @@ def run(tier, seed):
                             n_num += 1
                             if not _multiset_close(list(data[1]), np.linalg.eigvals(U)):
                                 good = False
-                                viol.append(Violation(key=f"{key}:eigvals:multiset-differs", detail=f"eigvals() of {op!r} are not the eigenvalues of its linear map",
+                                viol.append(Violation(key=f"eigvals:multiset-differs:{key}", detail=f"eigvals() of {op!r} are not the eigenvalues of its linear map",
                                                       replay={"op": repr(op), "term": t, "eigvals": [str(z) for z in data[1]]}))
                             continue
                     except Exception as e:
@@ -390,7 +397,7 @@ def run(tier, seed):
                 if not _close(got, U):
                     good = False
                     err = float(np.max(np.abs(np.asarray(got) - U))) if np.shape(got) == U.shape else -1.0
-                    viol.append(Violation(key=f"{key}:{what.split('(')[0]}:differs", detail=f"{what} of {op!r} differs from Sem(op) (max err {err:.3g}; wire order {m['W']})",
+                    viol.append(Violation(key=f"{what.split('(')[0]}:differs:{key}", detail=f"{what} of {op!r} differs from Sem(op) (max err {err:.3g}; wire order {m['W']})",
                                           replay={"op": repr(op), "term": t, "wire_order": [str(w) for w in m["W"]], "what": what}))
             if good and not m["alt"]:
                 nontriv.add(repr(op))
